@@ -13,6 +13,7 @@ import (
 	"verif/checks/c14"
 	"verif/checks/c15"
 	"verif/checks/c16"
+	"verif/checks/c17"
 	"verif/checks/ccrypto"
 	"verif/engine"
 )
@@ -29,6 +30,7 @@ var checks = map[string]check{
 	"C14": {"model_checking", c14.Run},
 	"C15": {"model_checking", c15.Run},
 	"C16": {"model_checking", c16.Run},
+	"C17": {"model_checking", c17.Run},
 	"C05": {"model_checking", ccrypto.RunC05},
 	"C06": {"model_checking", ccrypto.RunC06},
 	"C07": {"model_checking", ccrypto.RunC07},
